@@ -48,6 +48,12 @@ CLAIMED = {
             "nx <= 300 quick / 4096 thorough (own explorer, all paths) and by CrossHair; the theoretical covariance is a fixed point of the vK "
             "recursion (C04 identities). NOT claimed: finiteness of values, stability and uniqueness of the stationary covariance (spectral radius)",
             "initial screen and covariance function are cut-points; A is an opaque matrix for the shift/shape obligations."),
+    "C06": ("3 C06", "term identity (=> bit identity) of seeded ft_phase_screen, ft_sh_phase_screen and both infinite screens incl. two added rows, with a "
+            "symbolic integer seed and symbolic parameters: the result after a history of interleaved operations (other instances with other or the "
+            "same seed, rows added on other instances, numpy.random.seed / global draws, FFT screens with other inner scale; programs of length <= 2 "
+            "quick / all pairs + triples thorough) equals the result in a history-free process, and a second reproduction after more interleaving "
+            "equals the first; each history runs in its own process. Different seeds / unseeded calls read disjoint draws (not forced equal)",
+            "stream model of numpy.random (documented seeding semantics); N = 2 grids; opaque content-named linear-algebra results."),
     "C09": ("4 C09", "ft/ift/ft2/ift2 and the real variants, as exported by the module and by the package, are inverse "
             "pairs, linear, satisfy Parseval, equal the centred DFT (origin at the centre sample) and obey the shift "
             "theorem for every complex input and every delta>0 at each listed size (1-D N<=5 quick / <=8 thorough, "
